@@ -137,7 +137,7 @@ def clock(ctx, P, iters):
         ctx.violation(ob, "R1.clock-source", "Simulation.event_and_return_nextnode", "return", "not-the-minimum-node", "the node handed back to the loop must be find_next_active_node()", loc(fn))
     # active_nodes covers every node with events
     init = sim.method("__init__")[1]
-    okk = any(isinstance(x, ast.Assign) and any(is_self_attr(t, "active_nodes") for t in x.targets) and unparse(x.value) == "self.nodes[:-1]" for x in ast.walk(init))
+    okk = any(isinstance(x, ast.Assign) and any(is_self_attr(t, "active_nodes") for t in x.targets) and unparse(x.value) == "self.nodes[:-1]" for x in rules.walk(P, sim, init))
     ob.ok("active_nodes")
     if not okk:
         ctx.violation(ob, "R6.scan-collection", "Simulation.__init__", "self.active_nodes", "not-all-nodes", "active_nodes must be every node but the exit (arrival node + all service nodes)", loc(init))
